@@ -269,8 +269,44 @@ def check(ctx):
             ctx.check(dedup, "C17.R12", f"{vu.qualname}:type-list", c, f"`{short(c, 60)}`: the types of the alternatives are concatenated as is: Union[int, NewType('U', int)] or Union[str, Path] gives {{\"type\": [\"integer\", \"integer\"]}}, invalid against the meta-schema", vu, c, detail="list(dict.fromkeys(types))")
     ctx.require(n12 >= 1, "_visited_union: folded type list not found")
 
+    # ---------------- R13: optional components of the listed entries are per entry
+    ctx.rule("C17.R13", "in a loop over entries that may be `(type, conversion)` pairs, a variable filled from the entry under a condition is reset at the start of every iteration: the conversion of one entry never applies to the entries listed after it", floor=1)
+    n13 = 0
+
+    def names13(t):
+        return {x.id for x in ast.walk(t) if isinstance(x, ast.Name)}
+    for fi in list(model.functions.values()):
+        if not fi.module.name.startswith("apischema.json_schema"):
+            continue
+        for loop in walk_no_nested(fi.node):
+            if not isinstance(loop, ast.For):
+                continue
+            elt = names13(loop.target)
+            first_uncond = {}
+            for idx, st in enumerate(loop.body):
+                if isinstance(st, (ast.Assign, ast.AnnAssign)) and getattr(st, "value", None) is not None:
+                    for t in (st.targets if isinstance(st, ast.Assign) else [st.target]):
+                        for nm in names13(t):
+                            first_uncond.setdefault(nm, idx)
+                if isinstance(st, ast.If):
+                    else_assigned = {nm for x in st.orelse for sub2 in ast.walk(x) if isinstance(sub2, ast.Assign) for t2 in sub2.targets for nm in names13(t2)}
+                    for sub in st.body:
+                        if not (isinstance(sub, ast.Assign) and names13(sub.value) & elt):
+                            continue
+                        for t in sub.targets:
+                            for nm in sorted(names13(t) - elt - names13(sub.value)):
+                                if not any(nm in names13(x) for x in loop.body[idx + 1:]):
+                                    continue
+                                n13 += 1
+                                ctx.check((nm in first_uncond and first_uncond[nm] < idx) or nm in else_assigned, "C17.R13", f"{fi.qualname}:{nm}", None,
+                                          f"`{nm}` is only assigned under `if {short(st.test, 40)}` and used afterwards in the loop: for an entry that does not satisfy the test it still holds the value taken from a previous entry - definitions_schema([(A, conv), B]) visits B with A's conversion, B's own name is never recorded and `$ref`s to it dangle",
+                                          fi, sub, detail=f"`{nm} = ...` unconditionally before the conditional assignment")
+    ctx.require(n13 >= 1, "no loop over (type, conversion) entries found in apischema.json_schema (_extract_refs vanished?)")
+
 
 def mutants(mb):
+    mb.add_text("conversion-loop-carried", "apischema/json_schema/schema.py", "    for tp in types:\n        conversion = None\n        if isinstance(tp, tuple):", "    conversion = None\n    for tp in types:\n        if isinstance(tp, tuple):", "C17.R13", "_extract_refs")
+    mb.add_text("neg-conversion-else-branch", "apischema/json_schema/schema.py", "        conversion = None\n        if isinstance(tp, tuple):\n            tp, conversion = tp\n", "        if isinstance(tp, tuple):\n            tp, conversion = tp\n        else:\n            conversion = None\n", negative=True)
     mb.add_text("type-list-with-duplicates", "apischema/json_schema/schema.py", "            return json_schema(type=list(dict.fromkeys(types)))\n", "            return json_schema(type=list(types))\n", "C17.R12", "type-list")
     mb.add_text("compare-schemas-zip-truncates", "apischema/json_schema/schema.py", "        if not isinstance(read, Sequence) or len(write) != len(read):\n            raise ValueError\n        return [compare_schemas(write[i], read[i]) for i in range(len(write))]", "        if not isinstance(read, Sequence):\n            raise ValueError\n        return [compare_schemas(w, r) for w, r in zip(write, read)]", "C17.R11", "sequence-length")
     mb.add_text("compare-schemas-leaf-accepts", "apischema/json_schema/schema.py", "        if not write == read:\n            raise ValueError\n        return write", "        return write", "C17.R11", "leaf")
